@@ -284,7 +284,7 @@ def gen_case(rng, idx, mode):
 
 def generate(seed, tier):
     rng = random.Random(seed)
-    n = 12000 if tier == "thorough" else 2500
+    n = 80000 if tier == "thorough" else 6000
     cases = []
     for i in range(n):
         mode = "rat" if i % 2 == 0 else "float"
